@@ -30,7 +30,7 @@ fn info(tier: Tier) -> CheckInfo {
         id: "C18",
         level: "model_checking",
         rule: format!(
-            "Tier {}: (a) all 8 request kinds (valid and with every single field deviation of C05's grammar) sent to a real client-mode node: it must emit no reply, store nothing, and every request it sends itself carries ro=1. (b) scripted requesters with ro in {{absent,0,1}} sending each request kind to a real server without and with a bootstrap list, plus a real client node looking up through them: no read-only requester may appear in either routing table; non-read-only find_node requesters do appear in the first node's table. (c) a real client looks up (find_node, get_immutable, get_peers, get_mutable) over 3 endpoints, every subset of which flags its replies ro=1: flagged endpoints contribute no value, no table entry and no responder; likewise every subset of 3 storers flags only its acknowledgement of a put (immutable, mutable, announce_peer): flagged acknowledgements do not count. (d) an adaptive node for 35 virtual minutes with 4 peers reporting its address: NAT in {{reachable, firewalled, port-rewritten}} x votes in {{all truthful, one liar, tie}} x explicit configurations {{adaptive, server_mode(), public_ip()}}{}. Oracle (d): reachable and a truthful majority => a self-addressed ping is observed, firewalled clears and server mode starts at a refresh no later than 30 min; NATed => still a client at 35 min; public_ip => the id is BEP42-valid for it from the start.",
+            "Tier {}: (a) all 8 request kinds (valid and with every single field deviation of C05's grammar) sent to a real client-mode node: it must emit no reply, store nothing, and every request it sends itself carries ro=1. (b) scripted requesters with ro in {{absent,0,1}} sending each request kind to a real server without and with a bootstrap list, plus a real client node looking up through them: no read-only requester may appear in either routing table; non-read-only find_node requesters do appear in the first node's table. (c) a real client looks up (find_node, get_immutable, get_peers, get_mutable) over 3 endpoints, every subset of which flags its replies ro=1: flagged endpoints contribute no value, no table entry and no responder; likewise every subset of 3 storers flags only its acknowledgement of a put (immutable, mutable, announce_peer): flagged acknowledgements do not count. (d) an adaptive node for 35 virtual minutes with 4 peers reporting its address: NAT in {{reachable, firewalled, port-rewritten, reachable until minute 5 then remapped to an unreachable port (a lookup at minute 6 lets the peers report it)}} x votes in {{all truthful, one liar, tie}} x explicit configurations {{adaptive, server_mode(), public_ip()}}{}. Oracle (d): reachable and a truthful majority => a self-addressed ping is observed, firewalled clears and server mode starts at a refresh no later than 30 min; NATed => still a client at 35 min; public_ip => the id is BEP42-valid for it from the start; on the wire, every message the node sends after it was seen in server mode carries no ro flag, every request before that is flagged ro=1 and no reply is sent; a ping from a known peer at minute 32 is answered (unflagged) iff the node is in server mode.",
             tier.name(),
             if tier.is_quick() { "" } else { ", each also with one lost datagram among the votes / the self-ping (deviation bound 1)" }
         ),
@@ -359,7 +359,7 @@ fn part_c_put(kind: usize, ro_mask: u8, out: &mut Partial) {
 
 // ------------------------------------------------------------------------------------------ (d)
 
-const NATS: [&str; 3] = ["reachable", "firewalled", "port-rewritten"];
+const NATS: [&str; 4] = ["reachable", "firewalled", "port-rewritten", "port-remapped-after-confirmation"];
 const VOTES: [&str; 3] = ["all-truthful", "one-liar", "tie"];
 const CONFS: [&str; 3] = ["adaptive", "server_mode()", "public_ip()"];
 
@@ -383,7 +383,10 @@ fn part_d(chooser: Chooser, nat: usize, votes: usize, conf: usize, faults: bool,
     cfg.nat = match nat {
         0 => Nat::None,
         1 => Nat::Firewalled,
-        _ => Nat::PortRewrite(40123),
+        2 => Nat::PortRewrite(40123),
+        // reachable when it confirms its address; five minutes later the NAT maps it to
+        // another (unreachable) port, and a lookup at minute 6 lets its peers tell it so
+        _ => Nat::None,
     };
     match conf {
         1 => cfg.server_mode = true,
@@ -407,11 +410,42 @@ fn part_d(chooser: Chooser, nat: usize, votes: usize, conf: usize, faults: bool,
     let h = start + 35 * MIN;
     let mut net = net;
     let mut next_sample = start;
+    let mut remapped = false;
+    let mut lookup_issued = false;
+    let mut probe_sent = false;
+    let mut probe_reply: Option<Option<i128>> = None;
+    let probe_tid = [0x70u8, 0x72, 0x6f, 0x62];
     loop {
-        let Some(ev) = w.step(h) else { break };
+        if nat == 3 && !remapped && w.now >= start + 5 * MIN {
+            w.nodes[a].cfg.nat = Nat::PortRewrite(40123);
+            remapped = true;
+        }
+        if nat == 3 && !lookup_issued && w.now >= start + 6 * MIN {
+            let _ = w.call_find_node(a, [0x6Cu8; 20].into());
+            lookup_issued = true;
+        }
+        if !probe_sent && w.now >= start + 32 * MIN {
+            // a peer the node has talked to pings it at its current external address
+            let to = w.nodes[a].cfg.addr();
+            w.send_raw(net.eps[0].addr, to, krpc::q_ping(&probe_tid, &net.eps[0].id));
+            probe_sent = true;
+        }
+        let stop = [start + 5 * MIN, start + 6 * MIN, start + 32 * MIN, h].into_iter().filter(|t| *t > w.now).min().unwrap_or(h);
+        let Some(ev) = w.step(stop) else {
+            if stop >= h {
+                break;
+            }
+            w.advance_to(stop);
+            continue;
+        };
         match &ev {
             Event::EndpointRecv { ep, dgram } => {
                 let i = net.index_of(*ep).expect("ep");
+                if let Some(k) = Krpc::parse(&dgram.bytes) {
+                    if !k.is_query() && k.t == probe_tid {
+                        probe_reply = Some(k.ro);
+                    }
+                }
                 if let Some(q) = Krpc::parse(&dgram.bytes) {
                     if q.is_query() {
                         if let Some(bytes) = net.honest_reply(i, &q, dgram.from, w.now) {
@@ -506,6 +540,50 @@ fn part_d(chooser: Chooser, nat: usize, votes: usize, conf: usize, faults: bool,
             let _ = truthful_majority;
         }
     }
+    // ---- on the wire: read-only flags must follow the mode the node is in. The switch is
+    // observed by sampling every 10 s, so messages sent more than 10 s before the first
+    // server-mode sample are client-mode messages and those after it server-mode messages.
+    if w.nodes[a].alive {
+        let mut bad_client: Option<String> = None;
+        let mut bad_server: Option<String> = None;
+        for (d, _) in w.sent() {
+            if d.from_node != Some(a) {
+                continue;
+            }
+            let Some(k) = Krpc::parse(&d.bytes) else { continue };
+            let t = d.sent_at - start;
+            let flagged = k.ro.map(|r| r != 0).unwrap_or(false);
+            match server_at {
+                Some(sa) if t > sa => {
+                    if flagged && bad_server.is_none() {
+                        bad_server = Some(format!("a {} sent at minute {} (server mode since minute {}) is flagged ro=1", if k.is_query() { "request" } else { "reply" }, t / MIN, sa / MIN));
+                    }
+                }
+                Some(sa) if t + 10 * SEC >= sa => {}
+                _ => {
+                    if k.is_query() && !flagged && bad_client.is_none() {
+                        bad_client = Some(format!("a request sent at minute {} while in client mode is not flagged read-only", t / MIN));
+                    }
+                    if !k.is_query() && bad_client.is_none() && d.to != d.from {
+                        bad_client = Some(format!("a reply was sent at minute {} while in client mode", t / MIN));
+                    }
+                }
+            }
+        }
+        if let Some(b) = bad_server {
+            problems.push(("server-mode-messages-flagged-read-only".into(), format!("{ctx}: {b}")));
+        }
+        if let Some(b) = bad_client {
+            problems.push(("client-mode-wire-behaviour".into(), format!("{ctx}: {b}")));
+        }
+        let s = w.snapshot(a);
+        match (s.core.server_mode, probe_reply) {
+            (true, None) if nat == 0 => problems.push(("server-does-not-answer".into(), format!("{ctx}: in server mode at minute 32 but a ping from a known peer got no reply"))),
+            (true, Some(Some(r))) if r != 0 => problems.push(("server-mode-messages-flagged-read-only".into(), format!("{ctx}: the reply to a ping at minute 32 is flagged ro={r}"))),
+            (false, Some(_)) => problems.push(("client-answered-a-request".into(), format!("{ctx}: in client mode at minute 32 but answered a ping"))),
+            _ => {}
+        }
+    }
     let out = DOut { problems, steps: w.steps, digests: w.state_digests.iter().copied().collect(), self_ping_seen, server_at_min: server_at.map(|t| t / MIN) };
     let ch = std::mem::take(&mut w.chooser);
     (ch, out)
@@ -549,7 +627,7 @@ fn run(tier: Tier, shard: usize, nshards: usize, _seed: u64) -> Partial {
     }
     // (d)
     for conf in 0..3 {
-        for nat in 0..3 {
+        for nat in 0..4 {
             for votes in 0..3 {
                 if !mine() {
                     continue;
